@@ -9,6 +9,7 @@ import (
 	"io"
 	"os"
 	"runtime"
+	"strconv"
 	"strings"
 	"sync"
 
@@ -73,7 +74,10 @@ type App struct {
 	// PolicyLate: the policy is assigned to the app after all declarations instead of right after cli.App(): commands
 	// declared before keep what they copied at declaration time (the default, ExitOnError)
 	PolicyLate bool
-	Shared     bool // do not touch the package-level exit function and error stream (concurrent use)
+	// CustomInt: integer-typed options and arguments are declared as user-defined value types (VarOpt / VarArg) whose
+	// Set refuses non-integers, instead of the built-in Int / Ints types
+	CustomInt bool
+	Shared    bool // do not touch the package-level exit function and error stream (concurrent use)
 }
 
 // Single wraps one program into an application without subcommands
@@ -128,9 +132,12 @@ type Obs struct {
 	Pan     interface{}
 	SpecErr *SpecErr
 	Stderr  string
+	Stdout  string // what went to the library's standard-output writer (nothing in the library writes there today)
 	// snapshot taken inside the Action: per node id, what the command line bound
 	Bind  map[int]Binding
 	SetBy map[int]map[string]bool
+	// SetByAt: the same flags as seen from inside each Before / After hook, by event name (B0, A2)
+	SetByAt map[string]map[int]map[string]bool
 	// PanVals: the values raised by BehPanic hooks, by hook name (B0, ACT1, A2)
 	PanVals map[string]interface{}
 	Ran     int
@@ -157,6 +164,37 @@ func Quiet() {
 	// caller of Run, where it is attributed to the application that ran on that goroutine
 	cli.VerifSetExiter(func(c int) { panic(&SharedExit{Code: c}) })
 }
+
+// CustomInt is a user-defined value type holding integers: Set refuses anything strconv.Atoi refuses
+type CustomInt struct {
+	Multi bool
+	V     []int
+}
+
+func (v *CustomInt) Set(s string) error {
+	n, err := strconv.Atoi(s)
+	if err != nil {
+		return fmt.Errorf("custom integer: %q is not a number", s)
+	}
+	if v.Multi {
+		v.V = append(v.V, n)
+	} else {
+		v.V = []int{n}
+	}
+	return nil
+}
+func (v *CustomInt) String() string { return fmt.Sprint(v.V) }
+func (v *CustomInt) Strs() []string {
+	if !v.Multi && len(v.V) == 0 {
+		return []string{"0"}
+	}
+	return intsStr(v.V)
+}
+
+// CustomInts is the multi-valued variant (it has Clear)
+type CustomInts struct{ CustomInt }
+
+func (v *CustomInts) Clear() { v.V = nil }
 
 // SharedExit is what the shared exit stub raises
 type SharedExit struct{ Code int }
@@ -220,6 +258,9 @@ func buildApp(a *App, o *Obs, setEnv *[]string) (*cli.Cli, map[int]*recs, func(c
 			for i := 0; i < b.Spin; i++ {
 				runtime.Gosched()
 			}
+			if !snapshot {
+				o.snapSetBy(name, all)
+			}
 			if snapshot {
 				o.Ran++
 				o.snapshot(a, all)
@@ -273,6 +314,16 @@ func buildApp(a *App, o *Obs, setEnv *[]string) (*cli.Cli, map[int]*recs, func(c
 				if a.Builtin {
 					ptr := (t.ID+i)%2 == 1 // every other declaration goes through the *Ptr entry point
 					switch {
+					case od.Int && a.CustomInt:
+						if od.Multi {
+							cv := &CustomInts{CustomInt{Multi: true}}
+							c.Var(cli.VarOpt{Name: name, Value: cv, EnvVar: env, SetByUser: sb})
+							rs.bo[od] = cv.Strs
+						} else {
+							cv := &CustomInt{}
+							c.Var(cli.VarOpt{Name: name, Value: cv, EnvVar: env, SetByUser: sb})
+							rs.bo[od] = cv.Strs
+						}
 					case od.Int && od.Multi:
 						p := new([]int)
 						if ptr {
@@ -333,6 +384,12 @@ func buildApp(a *App, o *Obs, setEnv *[]string) (*cli.Cli, map[int]*recs, func(c
 						*setEnv = append(*setEnv, aenv)
 					}
 				}
+				if a.Builtin && ad.Int && a.CustomInt {
+					cv := &CustomInts{CustomInt{Multi: true}}
+					c.Var(cli.VarArg{Name: ad.Name, Value: cv, SetByUser: sb, EnvVar: aenv})
+					rs.ba[ad] = cv.Strs
+					continue
+				}
 				if a.Builtin && ad.Int {
 					p := c.Ints(cli.IntsArg{Name: ad.Name, SetByUser: sb, EnvVar: aenv})
 					rs.ba[ad] = func() []string { return intsStr(*p) }
@@ -391,14 +448,14 @@ func buildApp(a *App, o *Obs, setEnv *[]string) (*cli.Cli, map[int]*recs, func(c
 // Run builds and runs the application on a fresh goroutine
 func Run(a *App, argv []string) *Obs {
 	o := &Obs{Bind: map[int]Binding{}, SetBy: map[int]map[string]bool{}, PanVals: map[string]interface{}{}}
-	var buf bytes.Buffer
+	var buf, obuf bytes.Buffer
 	done := make(chan struct{})
 	var setEnv []string
 	go func() {
 		defer close(done)
 		if !a.Shared {
 			cli.VerifSetStdErr(&buf)
-			cli.VerifSetStdOut(&buf)
+			cli.VerifSetStdOut(&obuf)
 			cli.VerifSetExiter(func(c int) {
 				cc := c
 				o.Exit = &cc
@@ -435,7 +492,26 @@ func Run(a *App, argv []string) *Obs {
 		os.Unsetenv(e)
 	}
 	o.Stderr = buf.String()
+	o.Stdout = obuf.String()
 	return o
+}
+
+func (o *Obs) snapSetBy(ev string, all map[int]*recs) {
+	if o.SetByAt == nil {
+		o.SetByAt = map[string]map[int]map[string]bool{}
+	}
+	m := map[int]map[string]bool{}
+	for tid, rr := range all {
+		sb := map[string]bool{}
+		for od, p := range rr.sbo {
+			sb["opt:"+od.Names[0]] = *p
+		}
+		for ad, p := range rr.sba {
+			sb["arg:"+ad.Name] = *p
+		}
+		m[tid] = sb
+	}
+	o.SetByAt[ev] = m
 }
 
 func (o *Obs) snapshot(a *App, all map[int]*recs) {
@@ -696,12 +772,12 @@ func (b *Built) Run(argv []string) *Obs {
 		return o
 	}
 	done := make(chan struct{})
-	var buf bytes.Buffer
+	var buf, obuf bytes.Buffer
 	go func() {
 		defer close(done)
 		if !b.a.Shared {
 			cli.VerifSetStdErr(&buf)
-			cli.VerifSetStdOut(&buf)
+			cli.VerifSetStdOut(&obuf)
 			cli.VerifSetExiter(func(c int) {
 				cc := c
 				o.Exit = &cc
@@ -725,6 +801,7 @@ func (b *Built) Run(argv []string) *Obs {
 	}()
 	<-done
 	o.Stderr = buf.String()
+	o.Stdout = obuf.String()
 	cp := *o
 	return &cp
 }
